@@ -29,7 +29,7 @@ TOps == QOps \cup { SSafeString(<<NL>>), SSafeBytes(Cross), SUnsafeBytes(<<A, 22
                     SPrintf(<<37, 118, 37, 118>>, <<StrT(4, <<A>>), TSafe(91, IntT(4))>>), SWrite(<<NL>>), SSafeString(<<226, 128>>),
                     SSafeUint(76, -1), SSafeFloat(77), SSafeString(RuneErrorBytes), SSafeString(<<226, 130, 186>>), SPrint(<<StrT(5, <<>>)>>), SSafeString(EndM), SSafeBytes(<<A>> \o EndM),
                     \* joining: a delimiter that holds an envelope, an empty slice, non-slice operands, a typed slice
-                    SJoinTo(<<A>> \o StartM \o <<A>> \o EndM, 160, TSlice(161, <<TInt(165, 47), TInt(166, 48), TStr(167, <<A, 226>>)>>)), SJoinTo(<<44>>, 160, TSlice(161, <<>>)),
+                    SJoinTo(<<A>> \o StartM \o <<A>> \o EndM, 176, TSlice(175, <<TInt(165, 47), TInt(166, 48), TStr(167, <<A, 226>>)>>)), SJoinTo(<<44>>, 160, TSlice(174, <<>>)),
                     SJoinTo(<<44>>, 160, TInt(168, 49)), SJoinTo(<<44>>, 160, TStr(169, <<A>>)), SJoinTo(<<44>>, 160, TNilPtr(170)),
                     SJoinTo(<<44>>, 160, TTSlice(171, <<TStr(172, <<A>>), TStr(173, StartM)>>)) }
 Ops == IF OpSetName = "T" THEN TOps ELSE QOps
